@@ -176,7 +176,11 @@ def same_name(a0: int, a1: int, a2: int, a3: int, order: int, local_first: bool,
         got = res.ctx[mod][name]['oid']
         if got != (want if backend else dotted(want)):
             return False
-    return set(res.info['MB'].oids) == set(dotted(exp[k]) for k in exp if k[0] == 'MB')
+    # the per-module summaries are separate objects: the first module's summary is still its own after the second was generated
+    for mod in ('MA', 'MB'):
+        if set(res.info[mod].oids) != set(dotted(exp[k]) for k in exp if k[0] == mod):
+            return False
+    return True
 
 
 def trap(number: int, a0: int, a1: int, ent_after: bool, upper: bool) -> bool:
